@@ -37,6 +37,21 @@ func exitAxiomsFor(S *Store, sum *Summary, g *Term) *Term {
 						ax = S.And(ax, S.Not(S.And(syms[i], syms[j])))
 					}
 				}
+				// an exit taken means its condition held in the last iteration: the condition, rewritten over the
+				// values that leave the loop, is implied by the exit flag (only the non-head exits carry information
+				// beyond the iteration count)
+				for _, x := range l.Exits {
+					if x.Sym == nil || x.AtHead || x.Guard == nil || len(l.final) == 0 {
+						continue
+					}
+					fg := S.Subst(x.Guard, l.final, map[*Term]*Term{})
+					internal := DependsOn(fg, func(s *Symbol) bool {
+						return (s.Loop != nil && s.Loop.inside(l)) || (s.Ev != nil && s.Ev.Loop != nil && s.Ev.Loop.inside(l))
+					})
+					if !internal {
+						ax = S.And(ax, S.Or(S.Not(S.SymTerm(x.Sym)), fg))
+					}
+				}
 				if top && len(syms) == len(l.Exits) {
 					// entered <=> left through one of the exits (termination assumed)
 					ax = S.And(ax, S.Or(S.Not(l.Guard), any))
